@@ -173,6 +173,14 @@ def nworkers() -> int:
         return 16
 
 
+_CUR_FN: Optional[Callable[..., Part]] = None
+
+
+def _call_global(unit: Any) -> Part:
+    assert _CUR_FN is not None
+    return _call((_CUR_FN, unit))
+
+
 def _call(args: Tuple[Callable[..., Part], Any]) -> Part:
     fn, unit = args
     try:
@@ -198,9 +206,11 @@ def pmap(ctx: Ctx, fn: Callable[[Any], Part], units: List[Any], chunksize: int =
             ctx.merge(_call((fn, u)))
     else:
         import multiprocessing as mp
+        global _CUR_FN
+        _CUR_FN = fn  # inherited by the forked workers (closures need not be picklable)
         mpctx = mp.get_context("fork")
         with mpctx.Pool(min(n, len(units))) as pool:
-            for part in pool.imap_unordered(_call, [(fn, u) for u in units], chunksize=chunksize):
+            for part in pool.imap_unordered(_call_global, units, chunksize=chunksize):
                 ctx.merge(part)
     if ctx.counts.get("__worker_errors__"):
         errs = [s for s in ctx.samples if isinstance(s, dict) and "worker_error" in s]
@@ -282,6 +292,9 @@ def repo_root() -> str:
 
 def use_repo() -> None:
     """Make `import odxtools` resolve to the tree under test (default: /repo, the editable install)."""
+    if os.environ.get("VERIF_PURE_BITSTRUCT") and "odxtools" not in sys.modules:
+        # make the accelerated backend unimportable: odxtools then falls back to the pure-Python bitstruct
+        sys.modules["bitstruct.c"] = None  # type: ignore[assignment]
     root = repo_root()
     if root not in sys.path:
         sys.path.insert(0, root)
@@ -377,3 +390,20 @@ def run_replay(path: str) -> int:
         return 1
     print(f"not reproduced: {rec['key']}")
     return 0
+
+
+def sub_main(prop: str, tier: str) -> None:
+    """Run a check's exploration in THIS (specially prepared) process and print its result as JSON."""
+    use_repo()
+    mod = load_check(prop)
+    ctx = Ctx(prop, tier, int(os.environ.get("VERIF_SEED", "0") or 0), mod.LEVEL)
+    mod.run(ctx)
+    out = {"counts": ctx.counts, "nviol": ctx.nviol, "viol": {k: [v[0], v[1], v[2]] for k, v in ctx.viol.items()},
+           "sets": {k: len(v) for k, v in ctx.sets.items()}}
+    print("SUBRESULT " + jdump(out))
+
+
+def sub_replay(prop: str, case_json: str) -> None:
+    use_repo()
+    mod = load_check(prop)
+    print("SUBRESULT " + jdump(mod.replay(json.loads(case_json))))
